@@ -109,7 +109,16 @@ def load_known():
         return json.load(f)
 
 
+def evidence_dir():
+    """evidence/ describes /repo only: a run pointed at a scratch tree (checker self-test) records elsewhere"""
+    root = os.path.abspath(os.environ.get('VERIF_REPO', '/repo'))
+    if root != '/repo':
+        return os.path.join(VERIF, '.work', 'evidence-scratch')
+    return EVID
+
+
 def write_evidence(prop, tier, seed, level, out, wall, extra_cov=None, assumptions=None, violations=0, known=0):
+    EVID = evidence_dir()
     os.makedirs(EVID, exist_ok=True)
     cov = {
         'explanation': out.explanation if hasattr(out, 'explanation') else '',
